@@ -26,7 +26,7 @@ Record cert := {
   cNotBefore : Z; cNotAfter : Z;
   cKey : bytes;                  (* raw public key X||Y when on P-256 *)
   cCrlDP : list bytes;
-  cPckExt : res pckext           (* pcs.PckCertificateExtensions(cert), modelled in Model/PckExt.v *)
+  cPckExt : option pckext        (* pcs.PckCertificateExtensions(cert) (None = error); modelled in Model/PckExt.v *)
 }.
 
 Record crl := {
@@ -571,9 +571,8 @@ Definition verify_v4 (w : world) (q : option quote) (o : options) (wall : Z) : f
     | Err c => fret (Err c)
     | Ok ch =>
       match cPckExt (chLeaf ch) with
-      | Panic => fret Panic
-      | Err _ => fret (Err EPckExt)
-      | Ok ext =>
+      | None => fret (Err EPckExt)
+      | Some ext =>
         let now := match optNow o with Some t => t | None => default_timeset wall end in
         if optGetCollateral o then
           match extract_ca (chLeaf ch) with
